@@ -28,7 +28,7 @@ import (
 // that an honest session produced for this key, or one that differs from it by a semantic
 // no-op; everything else must be rejected; honest pairs must be accepted.
 
-var c01Feat = GenFeat{Commit: true, Lookup: true, Range: false, Hint: true, Wide: false, Bits: true, MaxOps: 7, MinOps: 1}
+var c01Feat = GenFeat{Commit: true, Lookup: true, Range: false, Hint: true, Wide: false, Bits: true, ScaledBool: true, MaxOps: 7, MinOps: 1}
 
 type session struct {
 	wi     int
